@@ -665,5 +665,11 @@ def build_script(sc, duts=None, name="cal", solve=True):
         lines["addcal"] = s.op("ci=vnacal_add_calibration $vc %s $vn" % qs(name))
         if duts is not None and sc.can_apply():
             s.op("vd=vnadata_alloc")
+            if getattr(sc, "reuse_vd", False):
+                # the result object was used for something else before: other
+                # type, other dimensions, more frequencies, per-frequency z0
+                s.op("vnadata_init $vd ZIN 1 5 7")
+                s.op("vnadata_set_frequency_vector $vd auto")
+                s.op("vnadata_set_fz0 $vd 3 2 0x1.2cp+6 0x1p+1")
             lines["apply"], lines["dump"] = sc.emit_apply(s, duts, name)
     return s, lines
